@@ -37,6 +37,13 @@ class C03(E2Prop):
                         for tail_op in ('f', 'r'):
                             cases.append(ws.scase_line('pp%d' % k, role, ['wb:' + ws.hx(data), 'r', 'r'] + [tail_op] * 5, rds, ['e:wb', 'e:wb', 'e:wb'], [],
                                                        max_=max(mx, gen_e2.frame_size(role, reply)))); k += 1
+        for role in 'sc':
+            data = bytes(range(16)); fsz = gen_e2.frame_size(role, 16)
+            for tok in ('PI', 'PI125', 'PI0'):
+                psz = gen_e2.frame_size(role, {'PI': 2, 'PI125': 125, 'PI0': 0}[tok])
+                for mx in (max(fsz, psz), fsz + 1, fsz + psz - 1):
+                    if mx < psz: continue
+                    cases.append(gen_e2.history('pq%d' % k, role, ['wb:' + ws.hx(data), 'r', 'r'], [tok, 'WB'], 'wb3', 'ok', 0, mx, tail=1)); k += 1
         # re-id uniquely
         out = []
         for k, c in enumerate(cases):
